@@ -52,7 +52,16 @@ class YowNoiseLayer(YowLayer):
 
     @EventCallback(YowNetworkLayer.EVENT_STATE_DISCONNECTED)
     def on_disconnected(self, event):
-        self._wa_noiseprotocol.reset()
+        # whatever belonged to the connection that went down is abandoned, not reused: a handshake worker of that connection that is
+        # still running - or has not even got to run yet - finds an empty segment and ends, and the state it works on is no
+        # longer this layer's, so it cannot make the layer look busy with a handshake when the next login starts
+        if self._handshake_worker is not None and self._handshake_worker.is_alive():
+            self._incoming_segments_queue.put(b"")
+        self._wa_noiseprotocol = WANoiseProtocol(
+            4, 0, protocol_state_callbacks=self._on_protocol_state_changed
+        )
+        self._stream = BlockingQueueSegmentedStream()
+        self._incoming_segments_queue = Queue.Queue()
 
     @EventCallback(YowAuthenticationProtocolLayer.EVENT_AUTH)
     def on_auth(self, event):
@@ -123,14 +132,16 @@ class YowNoiseLayer(YowLayer):
                     if protocol is self._wa_noiseprotocol else None
                 )
                 self._wa_noiseprotocol = protocol
-                self._stream = BlockingQueueSegmentedStream()
-                self._incoming_segments_queue = Queue.Queue()
+                stream = self._stream = BlockingQueueSegmentedStream()
+                segments = self._incoming_segments_queue = Queue.Queue()
                 self._handshake_worker = WANoiseProtocolHandshakeWorker(
                     self._wa_noiseprotocol, self._stream, client_config, local_static, remote_static,
                     lambda e=None: self.on_handshake_finished(e) if protocol is self._wa_noiseprotocol else None
                 )
                 logger.debug("Starting handshake worker")
-                self._stream.set_events_callback(self._handle_stream_event)
+                # the events of this attempt's stream are served from this attempt's stream and queue: a worker of a cut-off
+                # attempt that gets to run only now must neither take this attempt's segments nor write into its connection
+                self._stream.set_events_callback(lambda event: self._handle_stream_event(event, stream, segments))
                 self._handshake_worker.start()
 
     def on_handshake_finished(self, e=None):
@@ -159,11 +170,15 @@ class YowNoiseLayer(YowLayer):
                 self._rs = self._wa_noiseprotocol.rs
             self._flush_incoming_buffer()
 
-    def _handle_stream_event(self, event):
+    def _handle_stream_event(self, event, stream=None, segments=None):
+        stream = stream or self._stream
+        segments = segments or self._incoming_segments_queue
         if event == BlockingQueueSegmentedStream.EVENT_WRITE:
-            self.toLower(self._stream.get_write_segment())
+            segment = stream.get_write_segment()
+            if stream is self._stream:
+                self.toLower(segment)
         elif event == BlockingQueueSegmentedStream.EVENT_READ:
-            self._stream.put_read_segment(self._incoming_segments_queue.get(block=True))
+            stream.put_read_segment(segments.get(block=True))
 
     def send(self, data):
         """
